@@ -837,7 +837,8 @@ class SimOS:
 
     def fsync(self, fd):
         sim = self._sim
-        f = sim.event('fsync', fd)
+        of = sim.fs.fds.get(fd)
+        f = sim.event('fsync', 'dir' if (of is not None and of.ino == sim.fs.DIR_INO) else fd)
         if f is not None:
             _raise(f)
         sim.fs.fsync(fd)
